@@ -306,6 +306,10 @@ def doc(model, rep):
         'print(__doc__)': lambda: Expr(Call(Name('print'), [Name('__doc__')])),
         'x.__doc__': lambda: Expr(Attr(Name('x'), '__doc__')),
         '__doc__ = __doc__ + "x"': lambda: Obj('Assign', targets=[Name('__doc__', 'Store')], value=Obj('BinOp', left=Name('__doc__'), op=Obj('Add'), right=Const('x'))),
+        '__doc__ += "x"': lambda: Obj('AugAssign', target=Name('__doc__', 'Store'), op=Obj('Add'), value=Const('x')),
+        'def f(): global __doc__; __doc__ += "x"': lambda: Obj('FunctionDef', name='f', args=Obj('arguments', posonlyargs=[], args=[], vararg=None, kwonlyargs=[], kw_defaults=[], kwarg=None, defaults=[]),
+                                                                 body=[Obj('Global', names=['__doc__']), Obj('AugAssign', target=Name('__doc__', 'Store'), op=Obj('Add'), value=Const('x'))], decorator_list=[], returns=None, type_params=[]),
+        'del __doc__': lambda: Obj('Delete', targets=[Name('__doc__', 'Del')]),
         'f(x)  (control)': lambda: Expr(Call(Name('f'), [Name('x')])),
     }
     fi = model.method(tq, '__call__')
@@ -326,7 +330,7 @@ def doc(model, rep):
         want = 'control' not in label
         rep.check(kept == {want}, 'C05.DOC', fi.loc(), 'module docstring + `%s` -> docstring %s' % (label, 'kept' if True in kept else 'removed'), 'as documented',
                   'the module docstring is %s although the module %s __doc__' % ('removed' if want else 'kept', 'uses' if want else 'does not use'), key='C05.DOC|' + label)
-    rep.floor('C05.DOC', 4)
+    rep.floor('C05.DOC', 6)
 
 
 # ---------------------------------------------------------------------- EXC
